@@ -22,7 +22,9 @@ MUT={
  'c01-bind-overwrite': [(B,'''	if !ok {
 		gb.affinityMap[bindKey] = sc
 	}''','''	gb.affinityMap[bindKey] = sc
-	_ = ok''')],
+	_ = ok'''),(B,'''	if _, ok := gb.affinityMap[bindKey]; !ok {
+		gb.affinityMap[bindKey] = sc
+	}''','''	gb.affinityMap[bindKey] = sc''')],
  'c01-unbind-on-error': [(P,'''		scRef.streamsDecr()
 		p.detectUnresponsive(ctx, scRef, callStarted, info.Err)
 		if info.Err != nil {
